@@ -17,7 +17,14 @@ type client struct {
 	messageIDMutex sync.Mutex
 	state          map[string]int
 	stateMutex     sync.Mutex
+	subscribeMutex sync.Mutex
 	capability     CapabilityMap
+}
+
+// subscribeLock serialises, per client, a change of a signal's
+// subscriber count with the remote call it triggers (see SubscribeID).
+func (c *client) subscribeLock() *sync.Mutex {
+	return &c.subscribeMutex
 }
 
 func (c *client) nextMessageID() uint32 {
